@@ -8,6 +8,7 @@ package utils
 //@ pure ParamValue.GetInt
 //@ pure ParamValue.GetString
 //@ pure ParamValue.GetFloat64
+//@ pure ParamValue.GetMapOfInt
 // a declared parameter carries a value (the configuration parser never stores a nil one; trusted)
 //@ ghost func pvOK(m map[string]streamtypes.ProcessorParam) bool = forall(k, string, in(k, m) ==> m[k].Value != nil)
 
@@ -50,4 +51,17 @@ package utils
 //@   temporaries cell
 //@   results err
 //@   ensures[that-many-seconds] err == nil ==> in(paramName, metaData) && *result == metaData[paramName].Value.GetInt() * 1000000000
+//@   ensures[missing-is-an-error] !in(paramName, metaData) ==> err != nil
+// a map parameter (the priorities of the queue's groups): every configured entry is copied under its own name with its
+// own value, and nothing else of the destination changes
+//@ func ExtractMapOfInt64Param
+//@   prop C06
+//@   requires pvOK(metaData) && result != nil
+//@   modifies mapof(result)
+//@   results err
+//@   loop 1 modifies mapof(result)
+//@   loop 1 invariant[copied-so-far] forall(k, string, in(k, seen1) ==> in(k, result) && result[k] == val.GetMapOfInt()[k])
+//@   loop 1 invariant[others-untouched] forall(k, string, !in(k, seen1) ==> (in(k, result) <==> old(in(k, result))) && result[k] == old(result[k]))
+//@   ensures[every-configured-entry] err == nil ==> in(paramName, metaData) && forall(k, string, in(k, metaData[paramName].Value.GetMapOfInt()) ==> in(k, result) && result[k] == metaData[paramName].Value.GetMapOfInt()[k])
+//@   ensures[nothing-else] forall(k, string, !(err == nil && in(k, metaData[paramName].Value.GetMapOfInt())) ==> (in(k, result) <==> old(in(k, result))) && result[k] == old(result[k]))
 //@   ensures[missing-is-an-error] !in(paramName, metaData) ==> err != nil
